@@ -285,6 +285,22 @@ class Ref:
         if is_parallel(s): return all(r.in_final(c) for c in s.states())
         return False
 
+    # ------------------------------------------------------------------ one step from an arbitrary configuration (C18)
+    def step_from(r, conf_ids, ev, condval):
+        """conf_ids: legal configuration; ev: event name or None (spontaneous); condval: {(source id, index): bool}.
+        Returns (taken transitions [(src, idx)], exited ids, entered ids, next configuration ids)."""
+        r.conf = set(r.ch.by_id[i] for i in conf_ids); r.hist = {}; r.iq.clear(); r.eq.clear(); r.running = True
+        r.cond = lambda t: (condval.get((t.source.id, t.idx), True) if t.cond is not None else True)
+        ts = r.select(ev)
+        r.cur = {'acts': []}
+        if not ts:
+            return [], [], [], sorted(conf_ids)
+        ex = r.exit_set(ts)
+        for s in ex: r.conf.discard(s)
+        r.enter(ts)
+        entered = [a[1] for a in r.cur['acts'] if a[0] == 'enter']
+        return [(t.source.id, t.idx) for t in ts], sorted(s.id for s in ex), entered, sorted(r.confids())
+
     # ------------------------------------------------------------------ interpret a scripted history
     def start(r):
         root = r.ch.root
